@@ -338,7 +338,7 @@ pub fn run(args: &Args) -> Report {
                     }
                 }
                 // take new references (three ways), recording address, length and a byte copy
-                if st.track && tracked.len() < 60 {
+                if st.track && tracked.len() < 300 {
                     if let Ok(r) = store.get_event_by_offset(off) {
                         tracked.push(Tracked { addr: addr_of_ref(r), len: r.len(), offset: off, copy: r.as_bytes().to_vec(), how: "by offset", growths_at_take: growths });
                     }
@@ -350,6 +350,12 @@ pub fn run(args: &Args) -> Report {
                         for r in evs {
                             tracked.push(Tracked { addr: addr_of_ref(r), len: r.len(), offset: off, copy: r.as_bytes().to_vec(), how: "from a query", growths_at_take: growths });
                         }
+                    }
+                }
+                if !st.track && tracked.len() < 900 {
+                    // every other stored event is referenced once, by offset
+                    if let Ok(r) = store.get_event_by_offset(off) {
+                        tracked.push(Tracked { addr: addr_of_ref(r), len: r.len(), offset: off, copy: r.as_bytes().to_vec(), how: "by offset", growths_at_take: growths });
                     }
                 }
                 if st.remove_after {
